@@ -5,12 +5,17 @@
   Quantifiers. Every theorem holds for every schema `S`, document `D`, world (`root : RVal`),
   operation name and every fuel of either side; "sufficient fuel" appears as the hypotheses that the
   model's run is `.ok resp` (not `stuck outOfFuel`) and the reference's is `.executed s`.
-  "Validated shape" appears as two explicit hypotheses:
-    * `s.undef = false` — the reference met no selected field that is undefined on its object type
-      (validation rule FieldsOnCorrectType excludes it);
-    * `(D.nodes.map Selection.pos).Nodup` — distinct selection nodes have distinct (line, column)
-      (a fact about parsed documents, property C06); needed only because `collectFields` memoises by
-      positions. The memo-free variant of the model needs neither position hypothesis nor node set.
+  Hypotheses about the document are facts about *parsed* documents (property C06), checked by the
+  harness on every case:
+    * `(D.nodes.map Selection.pos).Nodup` — distinct selection nodes have distinct (line, column);
+      needed only because `collectFields` memoises by positions (the memo-free variant needs none);
+    * `∀ s ∈ D.nodes, s.keyOK` — response keys (aliases / names) are non-empty.
+  No typing hypothesis is needed: `exec_data_eq_ref_all_documents`, `errors_sandwich`,
+  `null_explained_once` hold for *every* document, the model's data being compared with its blank
+  slots erased (`Json.strip`; the executor leaves `"": null` for a field that is not defined on the
+  object type, the specification skips it). For documents in the validated shape — the reference
+  meets no undefined field, `s.undef = false`, guaranteed by rule FieldsOnCorrectType —
+  `exec_data_eq_ref` gives plain equality.
   Helper lemmas live in Lemmas.lean; only the property statements are here.
 -/
 import ApiFu.C01.Lemmas
@@ -143,17 +148,31 @@ theorem exec_data_eq_ref (S : Schema) (D : Document) (hpos : (D.nodes.map Select
   (execute_refines true S D (· ∈ D.nodes) (nodeSet_of_distinct_positions D hpos).1
     (nodeSet_of_distinct_positions D hpos).2 fuel fuel' opName root resp s hm hs hu).1
 
+/-- **exec_data_eq_ref_all_documents** — for *every* document (validated or not): the response data
+    of the executor model, with the blank slots of undefined fields erased, is the data the June-2018
+    algorithm prescribes. -/
+theorem exec_data_eq_ref_all_documents (S : Schema) (D : Document) (hpos : (D.nodes.map Selection.pos).Nodup)
+    (hkeys : ∀ s ∈ D.nodes, s.keyOK)
+    (fuel fuel' : Nat) (opName : String) (root : RVal) (resp : Response) (s : Spec.SOut)
+    (hm : execute true S D fuel opName root = .ok resp)
+    (hs : Spec.executeRequest S D fuel' opName root = .executed s) :
+    resp.data.map Json.strip = s.data :=
+  (execute_refinesS true S D (· ∈ D.nodes) (nodeSet_of_distinct_positions D hpos).1 (keysOK_of_nodes D hkeys)
+    (nodeSet_of_distinct_positions D hpos).2 fuel fuel' opName root resp s hm hs).1
+
 /-- **errors_sandwich** — as multisets, required ⊆ reported ⊆ all: every error the reference requires
     (one per failure-null visible in data) is reported, and nothing is reported that no evaluation
     order of the reference produces, nor more often. Errors are compared in full (message class, path,
-    locations), which is finer than the (path, locations) key of the property statement. -/
+    locations), which is finer than the (path, locations) key of the property statement. Holds for
+    every document. -/
 theorem errors_sandwich (S : Schema) (D : Document) (hpos : (D.nodes.map Selection.pos).Nodup)
+    (hkeys : ∀ s ∈ D.nodes, s.keyOK)
     (fuel fuel' : Nat) (opName : String) (root : RVal) (resp : Response) (s : Spec.SOut)
     (hm : execute true S D fuel opName root = .ok resp)
-    (hs : Spec.executeRequest S D fuel' opName root = .executed s) (hu : s.undef = false) :
+    (hs : Spec.executeRequest S D fuel' opName root = .executed s) :
     s.req ⊆ₘ resp.errors ∧ resp.errors ⊆ₘ s.all :=
-  (execute_refines true S D (· ∈ D.nodes) (nodeSet_of_distinct_positions D hpos).1
-    (nodeSet_of_distinct_positions D hpos).2 fuel fuel' opName root resp s hm hs hu).2
+  (execute_refinesS true S D (· ∈ D.nodes) (nodeSet_of_distinct_positions D hpos).1 (keysOK_of_nodes D hkeys)
+    (nodeSet_of_distinct_positions D hpos).2 fuel fuel' opName root resp s hm hs).2
 
 /-- **exec_refines_ref_without_memo** — the same two statements for the model with the memo switched
     off, for *every* document (no hypothesis on positions): the memo is the only reason positions
@@ -190,12 +209,13 @@ theorem collectFields_memo_sound (S : Schema) (D : Document) (hpos : (D.nodes.ma
     list exactly once. (At least once by `errors_sandwich`; at most once because the reference raises
     at most one error per response position, `spec_errors_distinct`, and the executor reports a sub-multiset.) -/
 theorem null_explained_once (S : Schema) (D : Document) (hpos : (D.nodes.map Selection.pos).Nodup)
+    (hkeys : ∀ s ∈ D.nodes, s.keyOK)
     (fuel fuel' : Nat) (opName : String) (root : RVal) (resp : Response) (s : Spec.SOut)
     (hm : execute true S D fuel opName root = .ok resp)
-    (hs : Spec.executeRequest S D fuel' opName root = .executed s) (hu : s.undef = false) :
+    (hs : Spec.executeRequest S D fuel' opName root = .executed s) :
     ∀ e ∈ s.req, resp.errors.count e = 1 := by
   intro e he
-  obtain ⟨h1, h2⟩ := errors_sandwich S D hpos fuel fuel' opName root resp s hm hs hu
+  obtain ⟨h1, h2⟩ := errors_sandwich S D hpos hkeys fuel fuel' opName root resp s hm hs
   have hnd := spec_request_all_nodup S D fuel' opName root s hs
   have hle : resp.errors.count e ≤ 1 := Nat.le_trans (h2 e) (List.nodup_iff_count.mp hnd e)
   have hge : 1 ≤ resp.errors.count e := Nat.le_trans (List.count_pos_iff.mpr he) (h1 e)
@@ -203,11 +223,12 @@ theorem null_explained_once (S : Schema) (D : Document) (hpos : (D.nodes.map Sel
 
 /-- **no_error_reported_twice** — the executor's error list has no duplicates. -/
 theorem no_error_reported_twice (S : Schema) (D : Document) (hpos : (D.nodes.map Selection.pos).Nodup)
+    (hkeys : ∀ s ∈ D.nodes, s.keyOK)
     (fuel fuel' : Nat) (opName : String) (root : RVal) (resp : Response) (s : Spec.SOut)
     (hm : execute true S D fuel opName root = .ok resp)
-    (hs : Spec.executeRequest S D fuel' opName root = .executed s) (hu : s.undef = false) :
+    (hs : Spec.executeRequest S D fuel' opName root = .executed s) :
     resp.errors.Nodup := by
-  obtain ⟨_, h2⟩ := errors_sandwich S D hpos fuel fuel' opName root resp s hm hs hu
+  obtain ⟨_, h2⟩ := errors_sandwich S D hpos hkeys fuel fuel' opName root resp s hm hs
   have hnd := spec_request_all_nodup S D fuel' opName root s hs
   rw [List.nodup_iff_count] at hnd ⊢
   intro e
@@ -273,6 +294,45 @@ theorem enum_result_declared (memo : Bool) (S : Schema) (D : Document) (fuel : N
     have := List.find?_eq_none.mp hf (name, g) hm
     simp at this
 
+/-! ## 7. Fuel -/
+
+/-- **exec_fuel_monotone** — a response obtained with some fuel is the response with any larger fuel:
+    running out of fuel is the only effect fuel has (`stuck outOfFuel` is never a response). -/
+theorem exec_fuel_monotone (memo : Bool) (S : Schema) (D : Document) (fuel k : Nat) (opName : String) (root : RVal)
+    (resp : Response) (h : execute memo S D fuel opName root = .ok resp) :
+    execute memo S D (fuel + k) opName root = .ok resp :=
+  execute_mono memo S D fuel k opName root resp h
+
+/-- **exec_fuel_irrelevant** — two runs that both produce a response produce the same response. -/
+theorem exec_fuel_irrelevant (memo : Bool) (S : Schema) (D : Document) (f1 f2 : Nat) (opName : String) (root : RVal)
+    (r1 r2 : Response) (h1 : execute memo S D f1 opName root = .ok r1) (h2 : execute memo S D f2 opName root = .ok r2) :
+    r1 = r2 := by
+  rcases Nat.le_total f1 f2 with h | h
+  · obtain ⟨k, rfl⟩ := Nat.exists_eq_add_of_le h
+    have := execute_mono memo S D f1 k opName root r1 h1
+    rw [this] at h2
+    exact Except.ok.inj h2
+  · obtain ⟨k, rfl⟩ := Nat.exists_eq_add_of_le h
+    have := execute_mono memo S D f2 k opName root r2 h2
+    rw [this] at h1
+    exact (Except.ok.inj h1).symm
+
+/-- **exec_fuel_sufficient** — the executor model terminates on documents without fragment cycles: given
+    a descent certificate `lvl` (every step into sub-selections or from a spread into its fragment
+    lowers it — it exists exactly when fragment spreads form no cycle, rule NoFragmentCycles) whose
+    values on the operations' selections are below `L`, any fuel ≥ `needSel W L = L·(W+3)+3` (W = deepest
+    list/non-null nesting of a field type) suffices: the run does not end in `outOfFuel`. Together with
+    `exec_fuel_monotone` this discharges "sufficient fuel" for the model; for the reference it stays a
+    hypothesis (`.executed s`). -/
+theorem exec_fuel_sufficient (memo : Bool) (S : Schema) (D : Document) (hpos : (D.nodes.map Selection.pos).Nodup)
+    (lvl : Selection → Nat) (hlvl : D.descentCheck lvl = true) (L : Nat)
+    (hL : ∀ op ∈ D.ops, ∀ s ∈ op.sels, lvl s < L)
+    (fuel : Nat) (hfuel : needSel S.maxWrappers L ≤ fuel) (opName : String) (root : RVal) :
+    execute memo S D fuel opName root ≠ .error .outOfFuel :=
+  execute_notOof memo S D (· ∈ D.nodes) (nodeSet_of_distinct_positions D hpos).1 lvl (descends_of_check D lvl hlvl) L
+    (fun op hop s hs => ⟨(nodeSet_of_distinct_positions D hpos).2 op hop s hs, hL op hop s hs⟩)
+    fuel hfuel opName root
+
 /-! ## Non-vacuity: an interface field, a merged fragment, `[T!]!` under a nullable parent under a
     non-null grandparent, one failing item -/
 
@@ -337,7 +397,37 @@ example : execute true S D (fuelFor S D) "" Wok =
 example (resp : Response) (s : Spec.SOut) (hm : execute true S D (fuelFor S D) "" W = .ok resp)
     (hs : Spec.executeRequest S D (fuelFor S D) "" W = .executed s) (hu : s.undef = false) :
     resp.data = s.data ∧ s.req ⊆ₘ resp.errors ∧ resp.errors ⊆ₘ s.all :=
-  ⟨exec_data_eq_ref S D (by decide) _ _ _ _ resp s hm hs hu, errors_sandwich S D (by decide) _ _ _ _ resp s hm hs hu⟩
+  ⟨exec_data_eq_ref S D (by decide) _ _ _ _ resp s hm hs hu, errors_sandwich S D (by decide) (by decide) _ _ _ _ resp s hm hs⟩
+
+/-- The example document has a descent certificate (nested selections lie further right; the fragment
+    is defined after both spreads): `exec_fuel_sufficient` applies with L = 100, W = 3. -/
+example : D.descentCheck (fun s => 100 - s.pos.col) = true := by decide
+
+example (fuel : Nat) (h : needSel S.maxWrappers 100 ≤ fuel) (root : RVal) :
+    execute true S D fuel "" root ≠ .error .outOfFuel :=
+  exec_fuel_sufficient true S D (by decide) (fun s => 100 - s.pos.col) (by decide) 100
+    (by decide) fuel h "" root
+
+/-- A document outside the validated shape: `nope` is not a field of `Root`. The executor leaves the
+    blank slot, the reference skips the field and flags `undef`; erased, the data agree
+    (`exec_data_eq_ref_all_documents`). -/
+def Dbad : Document :=
+  { ops := [{ kind := .query, name := none, pos := ⟨1, 1⟩, sels :=
+      [.field ⟨1, 3⟩ none "g" "g" none [] [.field ⟨1, 7⟩ none "nope" "nope" none [] [], .field ⟨1, 12⟩ none "p" "p" none [] [
+        .field ⟨1, 16⟩ none "__typename" "__typename" none [] []]]] }],
+    frags := [] }
+
+example : execute true S Dbad (fuelFor S Dbad) "" Wok =
+    .ok { data := some (.obj [("g", .obj [("", .null), ("p", .obj [("__typename", .str "Holder")])])]), errors := [] } := by
+  rfl
+
+example : Spec.executeRequest S Dbad (fuelFor S Dbad) "" Wok =
+    .executed { data := some (.obj [("g", .obj [("p", .obj [("__typename", .str "Holder")])])]), all := [], req := [], undef := true } := by
+  rfl
+
+example : (Json.obj [("g", .obj [("", .null), ("p", .obj [("__typename", .str "Holder")])])]).strip =
+    .obj [("g", .obj [("p", .obj [("__typename", .str "Holder")])])] := by
+  simp [Json.strip, stripFields]
 
 end Example
 
